@@ -164,7 +164,22 @@ def main():
     out["config_props"] = props
 
     # ---- interpreter: except lists by AST, command table live
+    def class_names(expr, module):
+        """the classes an except clause names: the expression is evaluated in the live module's namespace (so a
+        module constant holding a tuple of classes, or a dotted name, resolves to the classes themselves);
+        anything that does not evaluate to classes is kept as its source text (the Coq side will not know it)"""
+        try:
+            v = eval(compile(ast.Expression(expr), "<except>", "eval"), dict(vars(module)))
+        except Exception:
+            v = None
+        vs = list(v) if isinstance(v, tuple) else [v]
+        if vs and all(isinstance(c, type) and issubclass(c, BaseException) for c in vs):
+            return [c.__name__ for c in vs]
+        return [ast.unparse(e) for e in expr.elts] if isinstance(expr, ast.Tuple) else [ast.unparse(expr)]
+
     def except_lists(path, funcs):
+        import importlib
+        module = importlib.import_module("ka." + os.path.basename(path)[:-3])
         tree = ast.parse(open(path).read())
         res = {}
         for node in tree.body:
@@ -175,10 +190,8 @@ def main():
                     for h in t.handlers:
                         if h.type is None:
                             names_ = ["<bare>"]
-                        elif isinstance(h.type, ast.Tuple):
-                            names_ = [ast.unparse(e) for e in h.type.elts]
                         else:
-                            names_ = [ast.unparse(h.type)]
+                            names_ = class_names(h.type, module)
                         rets = [ast.unparse(n.value) if n.value is not None else "None" for n in ast.walk(h) if isinstance(n, ast.Return)]
                         raises = [ast.unparse(n.exc) if n.exc is not None else "<reraise>" for n in ast.walk(h) if isinstance(n, ast.Raise)]
                         hs.append(dict(classes=names_, returns=rets, raises=raises, line=h.lineno))
